@@ -38,20 +38,21 @@ Ltac ok_inv H := inversion H; subst; clear H.
 
 (* ---- ~* : the cursor ------------------------------------------------------------------------------------ *)
 (* ~n* skips n arguments, ~n:* backs up n, ~n@* goes to argument n; inside 0..len this is all that happens *)
-Theorem move_law : forall b colon at_ ps c c' a,
-  dir_move b colon at_ ps c = Ok (c', a) ->
+Theorem move_law : forall colon at_ ps c c' a,
+  dir_move colon at_ ps c = Ok (c', a) ->
   exists n changed, first_int ps 1 = (GOk n, changed) /\ (colon && at_ = false) /\ a = false /\ extends c c' /\
     c_apos c' = (if colon then c_apos c - n else if at_ then (if changed then n else 0) else c_apos c + n)%Z.
 Proof.
-  intros b colon at_ ps c c' a H. unfold dir_move in H.
+  intros colon at_ ps c c' a H. unfold dir_move in H.
   destruct (first_int ps 1) as [g changed] eqn:E. destruct g as [n| |]; try discriminate.
   exists n, changed. split; [reflexivity|].
   destruct (colon && at_) eqn:Eca; [discriminate|]. split; [reflexivity|].
   break_in H; ok_inv H; (split; [reflexivity|]); (split; [repeat split; exists []; cbn; rewrite app_nil_r; reflexivity | reflexivity]).
 Qed.
-(* by the definition (S) the cursor never leaves the argument list: 0 <= position <= number of arguments *)
+(* the cursor never leaves the argument list: 0 <= position <= number of arguments (the Go code checks it since
+   repo_fixes/C15-15) *)
 Theorem move_stays_inside : forall colon at_ ps c c' a,
-  dir_move false colon at_ ps c = Ok (c', a) -> (0 <= c_apos c' <= nargs c)%Z.
+  dir_move colon at_ ps c = Ok (c', a) -> (0 <= c_apos c' <= nargs c)%Z.
 Proof.
   intros colon at_ ps c c' a H. unfold dir_move in H.
   break_in H; ok_inv H; cbn [c_apos set_apos];
@@ -68,11 +69,11 @@ Proof.
   - apply Z.leb_gt in E. ok_inv H. split; [lia | auto].
 Qed.
 (* ~A ~S *)
-Theorem aesthetic_consumes_one : forall b esc colon at_ ps c c' a, (0 <= c_apos c)%Z ->
-  dir_as b esc colon at_ ps c = Ok (c', a) ->
+Theorem aesthetic_consumes_one : forall esc colon at_ ps c c' a, (0 <= c_apos c)%Z ->
+  dir_as esc colon at_ ps c = Ok (c', a) ->
   a = false /\ c_apos c' = (c_apos c + 1)%Z /\ arg_at c <> None /\ extends c c'.
 Proof.
-  intros b esc colon at_ ps c c' a Hpos H. unfold dir_as in H.
+  intros esc colon at_ ps c c' a Hpos H. unfold dir_as in H.
   destruct (take_arg c) as [[v c1]| | |] eqn:Et; try discriminate.
   destruct (proj1 (take_arg_spec _ _ _ Et) Hpos) as [Ha ->].
   break_in H; ok_inv H.
@@ -200,12 +201,12 @@ Proof.
     eapply extends_trans; [exact Hc0|]. eapply extends_trans; [apply (extends_set_apos c0)|].
     eapply extends_trans; [exact F1 | apply extends_taint].
 Qed.
-(* by the definition (S) the list must be there *)
-Theorem iteration_needs_its_list : forall fuel rec colon ps c c' a,
-  dir_iter false fuel rec colon false ps c = Ok (c', a) -> arg_at c <> None.
+(* the list must be there, for both readings (the model since repo_fixes/C15-14) *)
+Theorem iteration_needs_its_list : forall b fuel rec colon ps c c' a,
+  dir_iter b fuel rec colon false ps c = Ok (c', a) -> arg_at c <> None.
 Proof.
-  intros fuel rec colon ps c c' a H Hn. unfold dir_iter in H.
-  destruct (block_extent false c "{" "}" true) as [r t] eqn:Eb.
+  intros b fuel rec colon ps c c' a H Hn. unfold dir_iter in H.
+  destruct (block_extent b c "{" "}" true) as [r t] eqn:Eb.
   destruct r as [[[e once] next]| | |]; try discriminate.
   assert (Ha0 : arg_at (add_taint (set_pos c next) t) = None) by exact Hn.
   destruct (get_int 0 ps max_int true) as [n| |]; try discriminate.
@@ -215,11 +216,11 @@ Qed.
 
 (* ---- ~? : recursive processing ------------------------------------------------------------------------------ *)
 (* ~? takes two arguments, the control string and the list of its arguments, whatever that control string does *)
-Theorem indirection_consumes_two : forall b rec c c' a v, arg_at c = Some v ->
-  dir_proc b rec false c = Ok (c', a) ->
+Theorem indirection_consumes_two : forall rec c c' a v, arg_at c = Some v ->
+  dir_proc rec false c = Ok (c', a) ->
   a = false /\ c_apos c' = (c_apos c + 2)%Z /\ (exists s, v = VStr s) /\ c_args c' = c_args c.
 Proof.
-  intros b rec c c' a v Hv H. unfold dir_proc in H.
+  intros rec c c' a v Hv H. unfold dir_proc in H.
   destruct (c_apos c <? 0)%Z; [discriminate|]. rewrite Hv in H.
   destruct v; try discriminate.
   set (c1 := set_apos c (c_apos c + 1)) in *.
@@ -275,48 +276,18 @@ Definition ints (l : list Z) : value := VList (map VInt l).
 Definition deviation_witnesses : list (string * list value) := [
   ("~{~A~^,~}", [ints [1; 2; 3]]);                                   (* caret *)
   ("~A~^ more", [VInt 1]);
-  ("~2R", [VInt 5]);                                                  (* radix ignored *)
-  ("~R", [VInt 20]);                                                  (* empty word *)
-  ("~R", [VInt 20001]);
-  ("~:R", [VInt 100]);                                                (* ordinal of a round number *)
-  ("~:R", [VInt 20]);
-  ("~R", [VInt 1000000000000000001]);                                 (* quantillion *)
-  ("~R", [VInt 1000000000000000000000000000000000000000000000000000000000000000001]);   (* beyond the table *)
-  ("~@R", [VInt 0]);                                                  (* Roman zero *)
-  ("~D", [VStr (tx "abc")]);                                          (* non-integer printed with escapes *)
-  ("~10,'*D", [VInt 42]);                                             (* quoted parameter that is a directive character *)
   ("~&x", []);                                                        (* fresh line at the start of the output *)
-  ("~%~{~&~A~}", [ints [1]]);                                         (* ... and inside a block *)
-  ("abc~{~5T~A~}", [ints [1]]);                                       (* column inside a block *)
   ("abc~2,4T|", []);                                                  (* ~colnum,colincT *)
-  ("~T|", []);
-  ("~:*~A", [VInt 1]);                                                (* cursor before the first argument *)
-  ("~A~5*", [VInt 1]);                                                (* cursor beyond the last argument *)
-  ("~:[a~;b~]", []);                                                  (* missing arguments *)
-  ("~{~A~}", []);
-  ("~?|", []);
-  ("~{~A~}}", [ints [1]]);                                            (* a brace after the block *)
-  ("~{~2{~A~}|~}", [VList [ints [1; 2; 3]; ints [4; 5; 6]]]);         (* nested block with a parameter *)
-  ("~{~{~A~:}|~}", [VList [ints [1]; ints [2]]]);                     (* nested ~:} *)
-  ("~:(~A~)", [VStr (tx "2nd")]);                                     (* words that start with a digit *)
-  ("~@(~A~)", [VStr (tx " hello world")]);
-  ("~[a~;b~:;c~]", [VInt 100000000000000000000]);                     (* bignum selector *)
-  ("~:[f~;t~]", [VList []]);                                          (* the empty list object is not nil *)
-  ("~:A", [VList []]);
-  ("~@[x~A~]y", [VList []]);
-  ("~?", [VStr (tx "x"); VNil]);
-  ("~VD", [VInt 3; VInt 1])                                           (* V *)
+  ("~T|", [])
 ]%Z.
 Lemma deviations_hold : forallb deviates deviation_witnesses = true.
 Proof. vm_compute. reflexivity. Qed.
 (* what the model and the specification say for some of them *)
-Lemma deviation_values :
-  map both [("~{~A~^,~}", [ints [1; 2; 3]]); ("~2R", [VInt 5]); ("~:R", [VInt 100]); ("~D", [VStr (tx "abc")]);
-            ("abc~2,4T|", []); ("~:*~A", [VInt 1]); ("~{~A~}}", [ints [1]]); ("~:[f~;t~]", [VList []])]%Z =
-  [ (OText (tx "1,"), OText (tx "1,2,3")); (OText (tx "five"), OText (tx "101"));
-    (OText (tx "one hundred"), OText (tx "one hundredth")); (OText (tx """abc"""), OText (tx "abc"));
-    (OText (tx "abc     |"), OText (tx "abc   |")); (OText (tx "nil"), OError);
-    (OText (tx "1"), OText (tx "1}")); (OText (tx "t"), OText (tx "f")) ].
+Definition deviation_table : list ((string * list value) * (outcome * outcome)) := [
+  (("~{~A~^,~}", [ints [1; 2; 3]]), (OText (tx "1,"), OText (tx "1,2,3")));
+  (("abc~2,4T|", []), (OText (tx "abc     |"), OText (tx "abc   |")))
+]%Z.
+Lemma deviation_values : map (fun e => both (fst e)) deviation_table = map snd deviation_table.
 Proof. vm_compute. reflexivity. Qed.
 
 (* ---- the guard is satisfiable: runs that consult no deviating site and use every kind of directive ---------- *)
@@ -341,7 +312,12 @@ Definition guard_examples : list (string * list value) := [
   ("~2{~A~}~{~A~:}|~{x~:}", [ints [1; 2; 3]; ints [4]; VNil]);
   ("~{~[a~;b~]~(~A~)~}", [VList [VInt 0; VStr (tx "XY"); VInt 1; VStr (tx "Zw")]]);
   ("~?~A ~@?~A", [VStr (tx "<~A~A>"); ints [1; 2]; VInt 3; VStr (tx "[~A]"); VInt 4; VInt 5]);
-  ("~(ABC dEF~) ~:(abc dEF~) ~@(abc dEF~) ~:@(abc def~)", [])
+  ("~(ABC dEF~) ~:(abc dEF~) ~@(abc dEF~) ~:@(abc def~)", []);
+  (* formerly outside the guard (repaired findings) *)
+  ("~R ~:R ~:R ~:R ~2R ~16,4,'0R ~3,,,'.,2:@R", [VInt 20001; VInt 20; VInt 100; VInt 2000000; VInt 5; VInt 255; VInt 100]);
+  ("~R|~VD|~10,'*D|~,,',:D|~D", [VInt 1000000000000000001; VInt 3; VInt 1; VInt 42; VInt 1234567; VStr (tx "abc")]);
+  ("~[a~;b~:;c~] ~:[f~;t~] ~:A ~@[x~A~]y ~?|", [VInt 100000000000000000000; VList []; VList []; VList []; VStr (tx "x"); VNil]);
+  ("~{~A~}} ~{~2{~A~}|~} ~{~{~A~:}|~}", [ints [1]; VList [ints [1; 2; 3]; ints [4; 5; 6]]; VList [ints [1]; ints [2]]])
 ]%Z.
 Lemma guard_examples_hold : forallb in_guard_same guard_examples = true.
 Proof. vm_compute. reflexivity. Qed.
@@ -372,6 +348,39 @@ Proof.
   cbn [hd]. rewrite go_int_text_is_render_int by (try assumption; lia).
   rewrite text_eqb_refl. reflexivity.
 Qed.
+(* ... and of anything else: an argument that is not an integer is written as by ~A, padded on the left
+   (repo_fixes/C15-13; it used to be written with escapes) *)
+Lemma go_int_text_other : forall base mincol pad comma k colon at_ v, (forall z, v <> VInt z) ->
+  go_int_text base mincol [pad] [comma] k colon at_ v = pad_left mincol pad (princ v).
+Proof.
+  intros base mincol pad comma k colon at_ v Hv. unfold go_int_text, pad_left.
+  destruct v as [z| | | | | |]; try (exfalso; exact (Hv z eq_refl));
+    cbn [negb andb]; rewrite andb_false_r;
+    (destruct (Nat.ltb (List.length _) mincol) eqn:E;
+     [rewrite repeat_text_single; reflexivity
+     | apply Nat.ltb_ge in E; replace (mincol - List.length _) with 0 by lia; reflexivity]).
+Qed.
+Theorem integer_site_coincides_any : forall base off colon at_ ps c, (2 <= base <= 36)%N ->
+  dir_int true base off colon at_ ps c = dir_int false base off colon at_ ps c.
+Proof.
+  intros base off colon at_ ps c Hb. unfold dir_int.
+  destruct (take_arg c) as [[v c1]| | |]; try reflexivity.
+  destruct (get_int off ps 0 true) as [mincol| |]; try reflexivity.
+  destruct (get_chr (off + 1) ps [sp]) as [padchar|] eqn:Ep; try reflexivity.
+  destruct (get_chr (off + 2) ps [","%char]) as [commachar|] eqn:Ec; try reflexivity.
+  destruct (get_int (off + 3) ps 3 true) as [commaint| |]; try reflexivity.
+  destruct (commaint <? 1)%Z eqn:Ek; [reflexivity|]. apply Z.ltb_ge in Ek.
+  destruct (get_chr_single _ _ _ _ Ep) as [p ->]. destruct (get_chr_single _ _ _ _ Ec) as [cm ->].
+  cbn [hd].
+  assert (E : go_int_text base (Z.to_nat mincol) [p] [cm] (Z.to_nat commaint) colon at_ v =
+              match v with
+              | VInt z => render_int base (Z.to_nat mincol) p cm (Z.to_nat commaint) colon at_ z
+              | _ => pad_left (Z.to_nat mincol) p (princ v)
+              end).
+  { destruct v as [z| | | | | |]; try (apply go_int_text_other; intros z0 E0; discriminate).
+    apply go_int_text_is_render_int; [assumption | lia]. }
+  rewrite E, text_eqb_refl. reflexivity.
+Qed.
 (* ~@R and ~:@R of 1..3999 (tables as in the source): same result, no taint added *)
 Theorem roman_site_coincides : forall colon c z, (1 <= z <= 3999)%Z -> arg_at c = Some (VInt z) ->
   dir_radix true src_tables colon true [] c = dir_radix false src_tables colon true [] c.
@@ -382,43 +391,44 @@ Proof.
   destruct (std_roman colon z) as [t|]; unfold pick; cbn [opt_text_eqb]; rewrite ?text_eqb_refl; reflexivity.
 Qed.
 
-(* ---- dirR's English loop against the definition: proved for all integers in EnglishProofs.v (english_loop,
-   english_loop_converse, english_loop_exact; english_ok is defined there). The bounded sweeps below are kept as
-   examples only: they were the evidence before the theorem existed and exercise the predicate on concrete numbers. ---- *)
+(* ---- dirR's English loop against the definition: proved for all integers in EnglishProofs.v (english_loop). Examples
+   only: the loop and the definition agree on every n below 3000 and on numbers spread over all magnitudes. ---- *)
 From C15 Require Import EnglishProofs.
-Definition english_agrees (ordinal : bool) (n : N) : bool :=
-  Bool.eqb (opt_text_eqb (go_english src_tables ordinal (dec_text (Z.of_N n))) (std_english ordinal (Z.of_N n)))
-           (english_ok ordinal n).
-Definition sweep (ordinal : bool) (hi lo : nat) : bool :=
-  forallb (fun i => forallb (fun j => english_agrees ordinal (N.of_nat i * 1000 + N.of_nat j)%N) (seq 0 lo)) (seq 0 hi).
-(* every n below 20000, cardinal and ordinal: the loop writes the defined text exactly when english_ok holds *)
-Example english_sweep_20000 : sweep false 20 1000 = true /\ sweep true 20 1000 = true.
-Proof. split; vm_compute; reflexivity. Qed.
-(* and on a few hundred numbers spread over all magnitudes, negative ones included *)
+Definition english_agrees_z (ordinal : bool) (z : Z) : bool :=
+  opt_text_eqb (go_english src_tables ordinal (dec_text z)) (std_english ordinal z).
 Definition spread : list Z :=
   flat_map (fun k => map (fun m => (m * 10 ^ Z.of_nat k + 7 * 10 ^ Z.of_nat (k / 2) + 13)%Z) [1; 19; 20; 21; 99; 100; 101; 110; 120; 999; -5; -40; -215]%Z)
-           (seq 0 66).
-Definition english_agrees_z (ordinal : bool) (z : Z) : bool :=
-  Bool.eqb (opt_text_eqb (go_english src_tables ordinal (dec_text z)) (std_english ordinal z)) (english_ok ordinal (Z.abs_N z)).
+           (seq 0 66) ++ map Z.of_nat (seq 0 3000) ++ map (fun k => (10 ^ Z.of_nat k)%Z) (seq 0 70).
 Example english_spread : forallb (english_agrees_z false) spread = true /\ forallb (english_agrees_z true) spread = true.
 Proof. split; vm_compute; reflexivity. Qed.
 
 (* ---- the two sites of ~R without parameters, for all integers: the readings coincide (no taint is added) on every
-   integer but 0 for the Roman forms and on english_ok for the English forms --------------------------------------- *)
+   integer but 0 for the Roman forms and on every integer for the English forms --------------------------------------- *)
 From C15 Require Import RomanProofs.
-Theorem roman_site_coincides_all : forall colon c z, z <> 0%Z -> arg_at c = Some (VInt z) ->
+Theorem roman_site_coincides_all : forall colon c z, arg_at c = Some (VInt z) ->
   dir_radix true src_tables colon true [] c = dir_radix false src_tables colon true [] c.
 Proof.
-  intros colon c z Hz Ha. unfold dir_radix. rewrite Ha.
+  intros colon c z Ha. unfold dir_radix. rewrite Ha.
   destruct (nargs c <=? c_apos c)%Z; [reflexivity|].
-  rewrite (go_roman_all_integers colon z Hz).
+  rewrite (go_roman_all_integers colon z).
   destruct (std_roman colon z) as [t|]; unfold pick; cbn [opt_text_eqb]; rewrite ?text_eqb_refl; reflexivity.
 Qed.
-Theorem english_site_coincides : forall colon c z, english_ok colon (Z.abs_N z) = true -> arg_at c = Some (VInt z) ->
+Theorem english_site_coincides : forall colon c z, arg_at c = Some (VInt z) ->
   dir_radix true src_tables colon false [] c = dir_radix false src_tables colon false [] c.
 Proof.
-  intros colon c z Hz Ha. unfold dir_radix. rewrite Ha.
+  intros colon c z Ha. unfold dir_radix. rewrite Ha.
   destruct (nargs c <=? c_apos c)%Z; [reflexivity|].
-  rewrite (english_loop colon z Hz).
+  rewrite (english_loop colon z).
   destruct (std_english colon z) as [t|]; unfold pick; cbn [opt_text_eqb]; rewrite ?text_eqb_refl; reflexivity.
+Qed.
+(* ~radix,mincol,padchar,commachar,comma-intervalR (repo_fixes/C15-6: dirR hands over to dirInt): the same for every
+   parameter list that is not empty, every table and every integer argument *)
+Theorem radix_site_coincides : forall T colon at_ p ps c z, arg_at c = Some (VInt z) ->
+  dir_radix true T colon at_ (p :: ps) c = dir_radix false T colon at_ (p :: ps) c.
+Proof.
+  intros T colon at_ p ps c z Ha. unfold dir_radix.
+  destruct (get_int 0 (p :: ps) 10 true) as [r| |]; try reflexivity.
+  destruct ((2 <=? r) && (r <=? 36))%Z eqn:E; [|reflexivity].
+  apply andb_true_iff in E. destruct E as [E1 E2]. apply Z.leb_le in E1. apply Z.leb_le in E2.
+  apply (integer_site_coincides (Z.to_N r) 1 colon at_ (p :: ps) c z); [lia | exact Ha].
 Qed.
